@@ -526,6 +526,8 @@ def run(ctx):
     specv += conc["violations"]
     ser = serde_view(ctx, [(k, b) for o, k, b in cases if o == "" and k in CTXS + ["cur"] and not has(b, "R") and not has(b, "N")])
     specv += ser["violations"]
+    flw = flow_cases(ctx)
+    specv += flw["violations"]
     seen, outv = {}, []
     for v in specv:
         key = (v.get("known"), re.sub(r"[0-9]+", "#", v["why"])[:50])
@@ -538,7 +540,7 @@ def run(ctx):
         dist["opts:" + (o or "none")] = dist.get("opts:" + (o or "none"), 0) + 1
     nontriv = {repr(x) for x in cases if x[1] != "cur"}
     return {
-        "evaluations": len(cases) + conc["n"] + ser["n"],
+        "evaluations": len(cases) + conc["n"] + ser["n"] + flw["n"],
         "distinct_nontrivial": len(nontriv),
         "rule": "process level (harness-built brush binary, `-c`): for each of 8 subshell contexts (( ), $( ), backquotes, first and "
                 "last pipeline stage, `&`+wait, <( ), coproc) every single mutator of the grammar, plus random mutator sequences "
@@ -546,7 +548,9 @@ def run(ctx):
                 "section by section; the same mutators in the current shell check that the dump sees each of them; plus "
                 "background jobs racing parent mutators; plus option prefixes {pipefail, lastpipe, set -m and all combinations} x "
                 "{non-final, final} pipeline stage x every mutator, and exit/return in a stage of a pipeline inside a function "
-                "(under lastpipe without job control the final stage is expected to run in the current shell). non-trivial = any case in a subshell context; distinct by (context, body)",
+                "(under lastpipe without job control the final stage is expected to run in the current shell); plus control-flow "
+                "containment: continue/break [1-3], exit, return inside 7 subshell contexts nested in two parent loops in a function "
+                "(directly and from a loop of the subshell), parent's iteration trace compared with the expectation and with bash. non-trivial = any case in a subshell context; distinct by (context, body)",
         "samples": [{"context": cases[-1][1], "script": texts[-1][len(PRELUDE):]}, {"context": cases[40][1], "script": texts[40][len(PRELUDE):]}],
         "distribution": dist,
         "extraction_crosscheck": {"cases": len(samp), "agree": len(samp) - len(xbad)},
@@ -558,6 +562,47 @@ def run(ctx):
                  "case; differential vs bash: none in this property (the expectations are isolation statements, not bash output). "
                  "concurrent samples: %d; in-process serde comparisons: %d over the fields %s" % (conc["n"], ser["n"], ser["fields"]),
     }
+
+
+# ------------------------------------------------------------------ control flow does not flow back
+# "Only the subshell's exit status and output flow back": `continue [n]` / `break [n]` / `exit` / `return` executed in a
+# subshell context that sits inside the parent's (nested) loops, inside a function, must end the subshell only. The
+# parent's loops are observed through a trace of every iteration; the expectation is the same for every flow keyword
+# and every context (and is what bash prints).
+FLOWS = ["continue", "continue 2", "continue 3", "break", "break 2", "break 3", "exit 3", "return 4"]
+FLOW_CTX = {"paren": "( %s )", "cmdsubst": "x=$( %s )", "backquote": "x=` %s `", "pipefirst": "{ %s; } | cat",
+            "pipelast": ": | { %s; }", "background": "{ %s; } & wait", "procin": "cat <( %s )"}
+FLOW_EXPECT = "rc=0 a1 a2 /a b1 b2 /b c1 c2 /c \n"
+
+
+def flow_script(c, flow, inner_loop):
+    body = "[ $f$k = b1 ] && %s; :" % flow
+    if inner_loop:
+        body = "for j in 1 2; do [ $f$k = b1 ] && %s; :; done" % flow
+    return ("trace=\"\"\ng() {\nfor f in a b c; do\n  for k in 1 2; do\n    %s\n    trace+=\"$f$k \"\n  done\n"
+            "  trace+=\"/$f \"\ndone\n}\ng; echo \"rc=$? $trace\"\n" % (FLOW_CTX[c] % body))
+
+
+def flow_cases(ctx):
+    from concurrent.futures import ThreadPoolExecutor
+    cases = [(c, fl, il) for c in FLOW_CTX for fl in FLOWS for il in (False, True)]
+    env = {"PATH": "/usr/bin:/bin", "HOME": "/var/tmp", "LC_ALL": "C"}
+
+    def one(case):
+        s = flow_script(*case)
+        rc, o, e = core.run_in_group([ctx.vbrush, "--norc", "--noprofile", "-c", s], 30, cwd="/var/tmp", env=env)
+        rb, ob, eb = core.run_in_group(["/usr/bin/bash", "--norc", "--noprofile", "-c", s], 30, cwd="/var/tmp", env=env)
+        return s, (None if rc is None else o.decode("utf-8", "replace")), (None if rb is None else ob.decode("utf-8", "replace"))
+    with ThreadPoolExecutor(max_workers=8) as ex:
+        res = list(ex.map(one, cases))
+    viol = []
+    for (c, fl, il), (s, got, bash) in zip(cases, res):
+        if bash != FLOW_EXPECT:
+            raise core.CheckBroken("control-flow containment: bash prints %r for %r" % (bash, s))
+        if got != FLOW_EXPECT:
+            viol.append({"input": {"script": s}, "why": "`%s` inside a %s context%s changed the parent's loops: trace %r, expected (and bash) %r" % (
+                fl, c, " (in a loop of the subshell)" if il else "", got, FLOW_EXPECT)})
+    return {"n": len(cases), "violations": viol}
 
 
 def concurrent_cases(ctx):
@@ -604,8 +649,10 @@ def search(ctx, res):
         for why, kn in check_case(opts, kind, body, d):
             if not kn:
                 specv.append({"input": {"script": text[len(PRELUDE):]}, "why": why})
+    flw = flow_cases(ctx)
+    specv += flw["violations"]
     specv.sort(key=lambda v: len(v["input"]["script"]))
-    return {"evaluations": len(cases), "spec_violations": specv[:5]}
+    return {"evaluations": len(cases) + flw["n"], "spec_violations": specv[:5]}
 
 
 def run_code_only(ctx):
